@@ -91,6 +91,22 @@ DESC = {
               "LISTEN_FDS >= 1 set but LISTEN_PID absent: the server adopts fd 3 although LISTEN_PID does not name it"),
     "C16-2": ("C16", "varlink_connect: `split(';').next()` replaced by `rsplit_once(';')` (only the LAST parameter is cut)",
               "an address with two or more `;` parameters: client and server disagree on the socket name"),
+    "C19-1": ("C19", "per-client step re-encoded as an index into a STEPS table; the gate becomes `if step > context.step { false } else { advance }`",
+              "Start, Test01, Test02, then Test01 again: the earlier step is answered with its success reply and rewinds the client"),
+    "C19-2": ("C19", "check_client_id uses `contexts.entry(client_id.into()).or_default()` with Default = Test01: unknown ids are enrolled",
+              "Test01 under an id that Start never issued succeeds, and that id can run the whole sequence"),
+    "C19-3": ("C19", "client-id table re-keyed as u64, lookup parses the id with from_str_radix(.., 16)",
+              "a never-issued spelling of an issued id (leading 0, leading +, upper case) passes the gate of every step"),
+    "C19-4": ("C19", "check_call_more! / check_call_oneway!: the leading arm rejecting the OTHER mode flags removed as redundant",
+              "Test10 with both more and upgrade set streams its success replies (outside the claimed slice: call-mode checks)"),
+    "C20-1": ("C20", "varlink_call: the split is anchored on the FIRST dot (`url[..dot].rfind('/')`) instead of the last slash",
+              "an address containing a dot (socket or directory name, tcp host, abstract name): the argument is cut too early"),
+    "C20-2": ("C20", "resolver path: the idle resolver connection is reused when the resolved address `starts_with` the resolver address",
+              "no address given and the resolved address merely extends the resolver's: the call goes to the resolver, not the service"),
+    "C20-3": ("C20", "--more loop: ConnectionClosed after at least one printed reply is treated as a normal end of stream (break)",
+              "--more, one `continues` reply, then the peer hangs up: exit status 0 although the announced reply never arrived"),
+    "C20-4": ("C20", "print_call_ret -> render_call_ret returning a String; --more output is buffered when stdout is not a terminal",
+              "--more with stdout piped, successful replies then an error reply: the pending successful replies are never written"),
     "C17-1": ("C17", "skip_serializing_if predicate replaced by `flag_is_default` (omit Some(false) like None) on Request/Reply flags",
               "a flag explicitly set to Some(false): round trip yields None; {\"oneway\":false} re-serialises without the member"),
 }
@@ -100,10 +116,10 @@ def main():
     log = "\n".join(open(a).read() for a in sys.argv[1:] if os.path.exists(a))
     conf = {}
     for l in log.split("\n"):
-        m = re.match(r"(C\d\d-\d) demo_on_HEAD=(\d+) demo_with_patch=(\d+) varlink_lib_tests_with_patch=(\d+) certification_example_with_patch=(\d+) \| base: (.*?) \| patched: (.*)$", l)
+        m = re.match(r"(C\d\d-\d) demo_on_HEAD=(\d+) demo_with_patch=(\d+) (?:varlink_lib_tests_with_patch|cli_and_varlink_tests_with_patch|certification_and_varlink_tests_with_patch)=(\d+)(?: certification_example_with_patch=(\d+))? \| base: (.*?) \| patched: (.*)$", l)
         if m:
             conf[m.group(1)] = {"demo_on_unmodified_tree_exit": int(m.group(2)), "demo_with_patch_exit": int(m.group(3)),
-                                "varlink_lib_and_doc_tests_with_patch_exit": int(m.group(4)), "certification_and_example_tests_with_patch_exit": int(m.group(5)),
+                                "varlink_lib_and_doc_tests_with_patch_exit": int(m.group(4)), "certification_and_example_tests_with_patch_exit": int(m.group(5)) if m.group(5) else None,
                                 "demo_on_unmodified_tree": m.group(6), "demo_with_patch": m.group(7)}
     rows = []
     for name in sorted(os.listdir(SEEDED)):
